@@ -62,6 +62,13 @@ theorem retry_raise_propagates {V : Type} (m : Machine V) (R H : List Field) (wf
   subst hs
   rfl
 
+/-- The exception class of the constructor is the outcome of the first clean attempt that does not reject
+    (`retryIndex`/`retryResult` is what the driver executes for the fault-injection stream). -/
+theorem retry_by_index {V : Type} (m : Machine V) (R H : List Field) (wf : m.WF R H) (o0 : Obj V)
+    (ss : List Strategy) :
+    (retry m o0 ss).2 = retryResult (retryIndex (ss.map fun s => (attempt m o0 s).2) 0) :=
+  retry_by_index_aux m R H wf o0 ss o0 0 (AgreeOff.refl _ _)
+
 /-- Against the live objects (instrumented on every run, `Gen.ConstructTab`): every attribute of the soup or of its
     builder that a feed — clean, or poisoned and rejected part-way — assigns or mutates is re-assigned by `reset()`,
     `initialize_soup` or the loop header before the next attempt. This is `Machine.WF.feedFrame` for the real code. -/
@@ -373,10 +380,17 @@ theorem dammit_some_of_fallback (env : DammitEnv) (encs : List Nat)
     (dammit env encs).unicodeMarkup.isSome = true := by
   unfold dammit
   simp only
-  by_cases ht : truthy (pass1 env encs {}).1 = true
+  by_cases ht : firstPassEnough (pass1 env encs {}).1 = true
   · simp only [ht, if_true]
-    match hp : (pass1 env encs {}).1, ht with
-    | some (c :: cs), _ => simp
+    have hs : (pass1 env encs {}).1.isSome = true := by
+      unfold firstPassEnough at ht
+      split at ht
+      · match hp : (pass1 env encs {}).1, ht with
+        | some (c :: cs), _ => rfl
+      · exact ht
+    cases hx : (pass1 env encs {}).1 with
+    | none => rw [hx] at hs; simp at hs
+    | some t => simp
   · simp only [ht, Bool.false_eq_true, if_false]
     have hinv : TriedFailed env (pass1 env encs {}).2 := by
       intro c hc
@@ -415,19 +429,22 @@ example : prepareMarkup (fun _ => dammit envDemo []) (fun _ => none) (.bytes [1]
 
 /-! ## the constructor -/
 
-/-- the measured hypothesis: CPython's tokenizer itself raises nothing but `AssertionError` -/
-def TokenizerRaisesOnlyAssertion {V : Type} (p : Parser V) : Prop :=
-  ∀ s, (p.tokenize s).2 = none ∨ (p.tokenize s).2 = some .assertionError
+/-- what `feed` turns into `ParserRejectedMarkup`: `AssertionError`, `ValueError` (and subclasses), or a
+    `ParserRejectedMarkup` raised directly -/
+def Wrapped (e : Err) : Prop := e = .assertionError ∨ e.isValueError = true ∨ e = .parserRejectedMarkup
+
+/-- the measured hypothesis: CPython's tokenizer itself raises nothing but `AssertionError` (markup it gives up on)
+    or `ValueError` (`html.unescape` of an attribute value with a decimal reference beyond `sys.int_max_str_digits`) -/
+def TokenizerRaisesOnlyWrapped {V : Type} (p : Parser V) : Prop :=
+  ∀ s, (p.tokenize s).2 = none ∨ ∃ e, (p.tokenize s).2 = some e ∧ Wrapped e
 
 /-- the handlers other than `handle_charref` (C04's Builder/Adapter models) do not raise, or raise what `feed` wraps -/
-def HandlersRaiseOnlyRejection {V : Type} (p : Parser V) : Prop :=
-  ∀ k o, (p.applyOther k o).2 = none ∨ (p.applyOther k o).2 = some .assertionError ∨
-    (p.applyOther k o).2 = some .parserRejectedMarkup
+def HandlersRaiseOnlyWrapped {V : Type} (p : Parser V) : Prop :=
+  ∀ k o, (p.applyOther k o).2 = none ∨ ∃ e, (p.applyOther k o).2 = some e ∧ Wrapped e
 
-theorem handleEvents_outcome {V : Type} (p : Parser V) (hh : HandlersRaiseOnlyRejection p)
+theorem handleEvents_outcome {V : Type} (p : Parser V) (hh : HandlersRaiseOnlyWrapped p)
     (orig : Option (Nat → Dec1)) (evs : List Event) (o : Obj V) :
-    (handleEvents p orig evs o).2 = none ∨ (handleEvents p orig evs o).2 = some .assertionError ∨
-      (handleEvents p orig evs o).2 = some .parserRejectedMarkup := by
+    (handleEvents p orig evs o).2 = none ∨ ∃ e, (handleEvents p orig evs o).2 = some e ∧ Wrapped e := by
   induction evs generalizing o with
   | nil => exact Or.inl rfl
   | cons ev evs ih =>
@@ -447,11 +464,10 @@ theorem handleEvents_outcome {V : Type} (p : Parser V) (hh : HandlersRaiseOnlyRe
       | some e => simpa using this
 
 /-- `_feed` under the constructor's `try`: accepted or rejected, never another exception -/
-theorem feed_outcome {V : Type} (p : Parser V) (ht : TokenizerRaisesOnlyAssertion p)
-    (hh : HandlersRaiseOnlyRejection p) (o : Obj V) :
+theorem feed_outcome {V : Type} (p : Parser V) (ht : TokenizerRaisesOnlyWrapped p)
+    (hh : HandlersRaiseOnlyWrapped p) (o : Obj V) :
     (soupFeed p o).2 = .accept ∨ (soupFeed p o).2 = .reject := by
-  have hp : (parserFeed p o).2 = none ∨ (parserFeed p o).2 = some .assertionError ∨
-      (parserFeed p o).2 = some .parserRejectedMarkup := by
+  have hp : (parserFeed p o).2 = none ∨ ∃ e, (parserFeed p o).2 = some e ∧ Wrapped e := by
     unfold parserFeed
     simp only
     have h1 := handleEvents_outcome p hh (p.origOf o) (p.tokenize (p.markupOf o)).1 o
@@ -459,19 +475,19 @@ theorem feed_outcome {V : Type} (p : Parser V) (ht : TokenizerRaisesOnlyAssertio
     obtain ⟨o', e⟩ := x
     cases e with
     | some e => simpa using h1
-    | none =>
-      simp only
-      rcases ht (p.markupOf o) with h | h
-      · exact Or.inl h
-      · exact Or.inr (Or.inl h)
+    | none => exact ht (p.markupOf o)
   unfold soupFeed builderFeed
   generalize parserFeed p o = x at hp ⊢
   obtain ⟨o', e⟩ := x
   simp only at hp
-  rcases hp with rfl | rfl | rfl
+  rcases hp with rfl | ⟨e, rfl, hw⟩
   · left; rfl
-  · right; rfl
-  · right; rfl
+  · right
+    simp only
+    rcases hw with rfl | hv | rfl
+    · simp [feedOutcome]
+    · simp [hv, feedOutcome]
+    · simp [feedOutcome, Err.isValueError]
 
 theorem retry_outcome {V : Type} (m : Machine V)
     (hf : ∀ o, (m.feed o).2 = .accept ∨ (m.feed o).2 = .reject) (o : Obj V) (ss : List Strategy) :
@@ -492,10 +508,10 @@ theorem retry_outcome {V : Type} (m : Machine V)
 
 /-- **C06 (partial).** With the repaired heuristics and charref conversion, for every `str` or `bytes` markup, every
     UnicodeDammit behaviour (`dammitOf`) and every initial object: IF the tokenizer raises nothing but
-    `AssertionError` and the other handlers raise at most what `feed` wraps, the constructor ends in a tree or in
-    `ParserRejectedMarkup`. -/
+    `AssertionError`/`ValueError` and the other handlers raise at most what `feed` wraps, the constructor ends in a
+    tree or in `ParserRejectedMarkup`. -/
 theorem constructor_outcome {V : Type} (m : Machine V) (p : Parser V) (hm : m.feed = soupFeed p)
-    (ht : TokenizerRaisesOnlyAssertion p) (hh : HandlersRaiseOnlyRejection p)
+    (ht : TokenizerRaisesOnlyWrapped p) (hh : HandlersRaiseOnlyWrapped p)
     (dammitOf : Bytes → DammitResult) (declared : Bytes → Option Nat) (o0 : Obj V) (mk : Markup) :
     (construct m heuristics (prepareMarkup dammitOf declared) o0 mk).2 = .ok () ∨
     (construct m heuristics (prepareMarkup dammitOf declared) o0 mk).2 = .error .parserRejectedMarkup := by
@@ -535,8 +551,19 @@ theorem constructor_old_fails_on_surrogate {V : Type} (m : Machine V) (prep : Ma
     `AssertionError`) and one that accepts -/
 def rejecting : Parser Unit := { crashing with tokenize := fun _ => ([], some .assertionError) }
 def accepting : Parser Unit := { crashing with tokenize := fun _ => ([.charref [54, 53], .other 1], none) }
-example : TokenizerRaisesOnlyAssertion rejecting := fun _ => Or.inr rfl
-example : HandlersRaiseOnlyRejection rejecting := fun _ _ => Or.inl rfl
+example : TokenizerRaisesOnlyWrapped rejecting := fun _ => Or.inr ⟨_, rfl, Or.inl rfl⟩
+example : HandlersRaiseOnlyWrapped rejecting := fun _ _ => Or.inl rfl
+
+/-- witness on the unrepaired mirror of `feed`: a tokenizer `ValueError` (`<a href="&#9…9;">` with more than
+    `sys.int_max_str_digits` digits) leaves the constructor as `ValueError`; the repaired `feed` rejects instead -/
+def valueErrorTokenizer : Parser Unit := { crashing with tokenize := fun _ => ([], some .valueError) }
+theorem constructor_old_fails_on_tokenizer_valueerror :
+    (construct ⟨fun _ => [], fun _ => [], soupFeedOld valueErrorTokenizer, []⟩ heuristics
+      (prepareMarkup (fun _ => ⟨none, none, false⟩) (fun _ => none)) (fun _ => ()) (.str [60])).2
+        = .error .valueError := by decide
+example : (construct ⟨fun _ => [], fun _ => [], soupFeed valueErrorTokenizer, []⟩ heuristics
+      (prepareMarkup (fun _ => ⟨none, none, false⟩) (fun _ => none)) (fun _ => ()) (.str [60])).2
+        = .error .parserRejectedMarkup := by decide
 example : (construct ⟨fun _ => [], fun _ => [], soupFeed rejecting, []⟩ heuristics
     (prepareMarkup (fun _ => ⟨none, none, false⟩) (fun _ => none)) (fun _ => ()) (.str [60])).2
       = .error .parserRejectedMarkup := by decide
